@@ -288,6 +288,7 @@ class Hist:
         self.p_unacked = {}  # pn -> (t, to)
         self.closed = None
         self.strict = True  # False: only 'no exception' is checked
+        self.no_usable = False  # P left E without any usable ID (clause (1) suspended until P supplies one)
         self.why_lenient = None
         self.trace = []
         self.nontrivial = False
@@ -368,7 +369,9 @@ class Hist:
                     self.res.count("c1_dcid_checked_after_retire_prior_to")
                 if seq is None:
                     self.violation("dcid:not-issued-by-peer", "E addressed a packet to %s which P never issued" % v.dcid.hex(), {"pn": v.pn})
-                if seq < self.r:
+                if seq < self.r and self.no_usable:
+                    self.res.count("c1_dcid_below_retire_prior_to_while_no_usable_id")
+                elif seq < self.r:
                     self.violation(
                         "dcid:below-retire-prior-to",
                         "E addressed packet pn=%d to ID #%d after retire_prior_to=%d was delivered" % (v.pn, seq, self.r),
@@ -558,8 +561,13 @@ class Hist:
                 held.add(seq)
             usable = [s for s in held if s >= self.r]
             if not usable:
+                # P's legal instructions leave E without any ID at or above retire_prior_to: E has to stay on the one it
+                # uses until P supplies another; the destination-ID clause is suspended until then, not for good
                 self.res.count("obs_legal_instructions_leave_E_without_usable_id")
-                self.lenient("no-usable-id-left")
+                self.no_usable = True
+            elif self.no_usable:
+                self.no_usable = False
+                self.res.count("usable_id_supplied_after_E_had_none")
         else:
             self.lenient("illegal-by-P:" + rel)
         self.frames_sent.append((seq, rpt, variant))
